@@ -79,6 +79,8 @@ impl Family for C16 {
       ("trigger_ms", Json::Int(trigger)),
       ("jitter", Json::Bool(rng.below(3) == 0)),
       // delay kinds: the period in microseconds instead of d_ms (0 = use d_ms), also below one millisecond
+      // interval kinds: virtual time the subscriber spends inside every tick's callback (0 = none)
+      ("tick_work_ms", Json::Int(if kind.starts_with("interval") && rng.below(4) == 0 { *rng.pick(&[d / 3, d / 2 + 7]) } else { 0 })),
       ("delay_us", Json::Int(if (kind == "delay" || kind == "delay-two-sources") && rng.below(4) == 0 { *rng.pick(&[300i64, 800, 1500, 99_999]) } else { 0 })),
     ])
   }
@@ -123,6 +125,12 @@ impl Family for C16 {
     if kind != "timeout" {
       delays.iter_mut().for_each(|x| *x = 0);
     }
+    let tick_work = if w.get("tick_work_ms").is_some() && (kind == "interval" || kind == "interval-default-take") { w.i("tick_work_ms") } else { 0 };
+    if tick_work < 0 || tick_work >= d {
+      return RunOut::invalid();
+    }
+    // a subscriber that works inside the callback: instants become lower bounds (like under jitter)
+    let slow_ticks = tick_work > 0;
     for k in 0..delays.len() {
       // the ambiguous band: the successor arrives after d measured from the item's arrival but
       // before d measured from the end of its delivery - the statement does not say which
@@ -151,7 +159,7 @@ impl Family for C16 {
     let gaps_b_ns: Vec<u64> = gaps_b.iter().map(|g| *g as u64 * MS).collect();
     let script_b: Vec<Step> = script.iter().map(|s| if let Step::N(i) = s { Step::N(*i + 100) } else { s.clone() }).collect();
     let mut rec = Recorder::new();
-    rec.next_delays_ns = Arc::new(delays.iter().map(|x| *x as u64 * MS).collect());
+    rec.next_delays_ns = Arc::new(if slow_ticks { vec![tick_work as u64 * MS; 16] } else { delays.iter().map(|x| *x as u64 * MS).collect() });
     let rec_b = Recorder::new();
     let src_log = Arc::new(Mutex::new(SrcLog::default()));
     let marks: Arc<Mutex<Vec<(&'static str, u64, u64)>>> = Arc::new(Mutex::new(Vec::new())); // (what, seq, t)
@@ -280,6 +288,15 @@ impl Family for C16 {
       let at = |t: u64, want: u64| -> bool { if jitter { t >= want } else { t == want } };
       match kind.as_str() {
         "interval" | "interval-default-take" => {
+          // lower bounds and gaps when the clock or the subscriber adds time
+          let jitter = jitter || slow_ticks;
+          let at = |t: u64, want: u64| -> bool { if jitter { t >= want } else { t == want } };
+          {
+            let ticks: Vec<u64> = evs.iter().filter(|r| matches!(r.ev, Ev::Next(_))).map(|r| r.t).collect();
+            if ticks.windows(2).any(|p| p[1] < p[0] + dn) {
+              v.push(Violation::new("wrong-instant", blame, format!("[{}] interval({}ms): two consecutive ticks less than one period apart: {}", cfg_name, d, shown)));
+            }
+          }
           let u_call = t_of("unsubscribe-call");
           let u_done = t_of("unsubscribed");
           for (i, r) in evs.iter().enumerate() {
@@ -590,7 +607,9 @@ const C15_CONSTRUCTS: &[&str] = &[
 ];
 // "unsubscribe-in-scheduler-factory": the scheduler factory of an inner stream (flat_map nestings)
 // unsubscribes the whole subscription - the inner stream's observer dies exactly while it is being set up
-const C15_ENDINGS: &[&str] = &["terminal", "unsubscribe", "take", "first", "take_until-timer", "amb-timer", "retry", "unsubscribe-early", "unsubscribe-probes", "unsubscribe-in-scheduler-factory"];
+// "stop-in-scheduler-factory": the pipeline ends in take_until(stop), and a scheduler factory fires
+// `stop` - for a top-level construct that is while the subscription is still being set up
+const C15_ENDINGS: &[&str] = &["terminal", "unsubscribe", "take", "first", "take_until-timer", "amb-timer", "retry", "unsubscribe-early", "unsubscribe-probes", "unsubscribe-in-scheduler-factory", "stop-in-scheduler-factory"];
 
 impl Family for C15 {
   fn name(&self) -> &'static str {
@@ -616,6 +635,9 @@ impl Family for C15 {
       ("unsub_probes", Json::Int(rng.below(25) as i64)),
       // for the ending "unsubscribe-in-scheduler-factory": which call of the inner factory does it
       ("factory_call", Json::Int(rng.below(3) as i64)),
+      // constructs behind ref_count: one more subscriber whose pipeline has ended before the shared
+      // stream is reached (just(x).merge(shared).take(1)); it must not count as a subscriber
+      ("dead_on_arrival_subscriber", Json::Bool(rng.below(2) == 0)),
     ])
   }
   fn knobs(&self, rng: &mut Rng, w: &Json, _tier: Tier) -> Json {
@@ -652,6 +674,7 @@ impl Family for C15 {
     // only nestings create schedulers after subscribe returned; elsewhere this ending is a plain unsubscribe
     let nested = ["flat_map-observe_on", "flat_map-subscribe_on", "timer+flat_map-interval"].contains(&construct.as_str());
     let ending = if ending == "unsubscribe-in-scheduler-factory" && !nested { "unsubscribe".to_string() } else { ending };
+    let dead_sub = w.get("dead_on_arrival_subscriber").is_some() && w.b("dead_on_arrival_subscriber");
     let factory_call = if w.get("factory_call").is_some() { w.i("factory_call").clamp(0, 8) } else { 0 };
     // (end instant, tasks at that instant)
     let ends: Arc<Mutex<Vec<(u64, Vec<rt::TaskInfo>)>>> = Arc::new(Mutex::new(Vec::new()));
@@ -671,13 +694,12 @@ impl Family for C15 {
           let (script, gaps, slog, handles) = (script.clone(), gaps.clone(), slog.clone(), handles.clone());
           move || threaded_source("timed-source", script.clone(), slog.clone(), true, gaps.clone(), handles.clone())
         };
-        let sched = schedulers::new_thread_scheduler;
-        // factory for the schedulers of inner streams
+        // factory for the schedulers (hooked: some endings act from inside it)
         let outer_sub: Arc<Mutex<Option<Subscription<'static>>>> = Arc::new(Mutex::new(None));
         let factory_hook: Arc<Mutex<Option<Arc<dyn Fn() + Send + Sync>>>> = Arc::new(Mutex::new(None));
         let inner_sched = {
           let (calls, fh) = (Arc::new(Mutex::new(0i64)), factory_hook.clone());
-          let in_factory = ending2 == "unsubscribe-in-scheduler-factory";
+          let in_factory = ending2 == "unsubscribe-in-scheduler-factory" || ending2 == "stop-in-scheduler-factory";
           move || {
             let k = {
               let mut c = calls.lock().unwrap();
@@ -693,6 +715,15 @@ impl Family for C15 {
             schedulers::new_thread_scheduler()()
           }
         };
+        let sched = {
+          let f = inner_sched.clone();
+          move || f.clone()
+        };
+        let stop = HotSource::new();
+        if ending2 == "stop-in-scheduler-factory" {
+          let s2 = stop.clone();
+          *factory_hook.lock().unwrap() = Some(Arc::new(move || s2.step_all(&Step::N(1))));
+        }
         let iv = || observables::interval(ms(d), sched()).map(|x| Val::Int(x as i64));
         let mut o: Observable<'static, Val> = match construct2.as_str() {
           "interval" => iv(),
@@ -709,7 +740,15 @@ impl Family for C15 {
             observables::timer(ms(d), sched()).flat_map(move |_| observables::interval(ms(d), f.clone()).map(|x| Val::Int(x as i64)))
           }
           "observe_on+observe_on" => timed_src().observe_on(sched()).observe_on(sched()),
-          "interval+ref_count" => iv().ref_count().observable(),
+          "interval+ref_count" => {
+            let shared = iv().ref_count().observable();
+            if dead_sub {
+              // a subscriber whose pipeline ends before the shared stream is reached
+              let extra = observables::just(Val::Int(-5)).merge(&[shared.clone()]).take(1);
+              let _ = extra.subscribe(|_| {}, |_| {}, || {});
+            }
+            shared
+          }
           "sample-by-interval" => timed_src().sample(observables::interval(ms(d), sched())),
           "subscribe_on+interval" => iv().subscribe_on(sched()),
           "interval+delay" => iv().delay(ms(7)),
@@ -765,6 +804,7 @@ impl Family for C15 {
           "unsubscribe-probes" => need_unsub = Some(-1),
           // the factory does it; if no inner stream is ever created the horizon cut ends it
           "unsubscribe-in-scheduler-factory" => {}
+          "stop-in-scheduler-factory" => o = o.take_until(stop.observable()),
           "take" => o = o.take(take as usize),
           "first" => o = o.first(),
           "take_until-timer" => o = o.take_until(observables::timer(ms(unsub_ms), sched())),
@@ -816,13 +856,15 @@ impl Family for C15 {
           // what the inner factory does when its turn comes
           *outer_sub.lock().unwrap() = Some(sub.clone());
           let (os, me) = (outer_sub.clone(), mark_end.clone());
-          *factory_hook.lock().unwrap() = Some(Arc::new(move || {
+          if ending2 != "stop-in-scheduler-factory" {
+            *factory_hook.lock().unwrap() = Some(Arc::new(move || {
             let s = os.lock().unwrap().take();
             if let Some(s) = s {
               s.unsubscribe();
               me();
             }
           }));
+          }
         }
         if let Some(u) = need_unsub {
           if u > 0 {
